@@ -112,7 +112,29 @@ def streams(tier, rng, P, only=None, cases=None):
         if st != "ok": return ("violation", "chord program did not compile normally: " + st)
         if f["bin1"] != f["bin2"]: return ("violation", "%s changed the chord: %s vs %s" % ("an empty argument slot" if c["key"].startswith("ce") else "a tie mark inside a chord", c["src"][:100], c["src2"][:100]))
         return None
+    # ---- octave-once marks (`"` one octave down, `` ` `` one octave up, for the next note only) inside Sub / tuplet / chord blocks: the block
+    #      ends at its own closing brace / quote whatever stands inside, and the marked note equals `o4 note o5` / `o6 note o5`
+    def mk_q():
+        cs = []
+        for i in range(1500 if big else 250):
+            notes = [rng.choice("cdefgab") + rng.choice(["", "", "8", "4"]) for _ in range(rng.randrange(1, 5))]
+            marks = [rng.choice(["", "", '"', "`"]) for _ in notes]
+            if not any(marks): marks[rng.randrange(len(marks))] = '"'
+            a_in = " ".join(m + n for m, n in zip(marks, notes))
+            b_in = " ".join(("o4 %s o5" % n) if m == '"' else (("o6 %s o5" % n) if m == "`" else n) for m, n in zip(marks, notes))
+            lead = rng.choice(["", " ", "c "])
+            wrap = rng.choice(["Sub{%s} d", "{%s}4 f", "[2 Sub{ {%s}2 } a ]", "Sub{ c {%s}4 } d e", "{c {%s} d}2 e", "Div{%s}4 g", "S{%s} r d"])
+            a = "o5 l4 " + (wrap % (lead + a_in)) + " n100"; b = "o5 l4 " + (wrap % (lead + b_in)) + " n100"
+            cs.append(dict(req="compile2 %s %s" % (hx(a), hx(b)), src=a, src2=b, show="%s   vs   %s" % (a, b), key="q%d" % i))
+        return cs
+    def q_judge(c, impl, m):
+        st, f = impl
+        if st != "ok": return ("violation", "block program did not compile normally: " + st)
+        if f["bin1"] != f["bin2"]: return ("violation", "an octave-once mark inside a block changes more than its note: %r vs %r" % (c["src"][:120], c["src2"][:120]))
+        return None
+    s4 = Stream("oncemarks", cases if (cases and only == "oncemarks") else mk_q(), lambda c, st, f: [], q_judge, lambda c, i, m: i[1].get("bin1") if i[0] == "ok" else None,
+                "octave-once marks inside blocks vs explicit octave commands")
     s3 = Stream("chordtie", cases if (cases and only == "chordtie") else mk_ct(), lambda c, st, f: [], ct_judge,
                 lambda c, i, m: i[1].get("bin1") if i[0] == "ok" else None, "chord with tie marks vs the same chord without", timeout_case=20.0)
     sx = execstream.exec_stream(tier, rng, P, only, cases)
-    return [s for s in (s1, s3, sx) if only in (None, s.name)]
+    return [s for s in (s1, s3, s4, sx) if only in (None, s.name)]
